@@ -99,12 +99,14 @@ def new_spec(kind, semantics='standard'):
 # of the recorded history, and is described in LAST_HISTORY so that a witness can mention it.
 HISTORY = None
 HISTORY_P = 0.15
+REPARSE = True          # C20 switches it off: explain() also reports on the assertions of earlier parse() calls
 LAST_HISTORY = []
 
 
-def begin_case(rng):
-    global HISTORY
+def begin_case(rng, reparse=True):
+    global HISTORY, REPARSE
     HISTORY = rng if os.environ.get('RTVERIF_HISTORY', '1') != '0' else None
+    REPARSE = reparse
     del LAST_HISTORY[:]
 
 
@@ -154,13 +156,44 @@ class Mon(object):
         self._hist = None
         self._pastified = False
         self.spec = build_spec(kind, sd)
-        if parse:
-            self.parse()
-        if pastify:
-            self.pastify()
+        hist = None
         if HISTORY is not None and HISTORY.random() < HISTORY_P:
             import random
-            self._hist = random.Random(HISTORY.randrange(1 << 30))
+            hist = random.Random(HISTORY.randrange(1 << 30))
+        if parse:
+            self.parse()
+            if hist is not None and REPARSE and hist.random() < 0.3:
+                self._reparse()
+        if pastify:
+            self.pastify()
+        self._hist = hist
+
+    def _reparse(self):
+        """History: the object parsed another formula in between - text A, then B, then A again (what an
+        interactive user or a specification editor does).  Only for texts without in-text declarations and
+        without sub-specifications (re-declaring those is refused cleanly by rtamt).  Never raises."""
+        sd = self.sd
+        text = sd.get('text', '')
+        if ';' in text or 'const' in text or sd.get('subspecs') or not sd.get('vars'):
+            return
+        v = sd['vars'][0]
+        # (rtamt keeps the assertions of earlier parse() calls and evaluates them along with the last one, whose
+        # robustness it returns: the formula in between is free of bounds, so it can be evaluated under any
+        # sampling period and unit)
+        other = '%s((%s >= 2) and (once (%s <= 3)))' % ('out = ' if text.lstrip().startswith('out =') else '', v, v)
+        try:
+            self.spec.spec = other
+            self.spec.parse()
+            self.spec.spec = text
+            self.spec.parse()
+        except Exception:
+            # re-parsing refused: not demanded by any property - continue with a fresh object
+            REC.counts['history-raised:reparse'] += 1
+            self.spec = build_spec(self.kind, sd)
+            self.spec.parse()
+            return
+        REC.counts['history:reparse'] += 1
+        LAST_HISTORY.append('object #%d: parsed %r in between and then its own text again' % (self.oid, other))
 
     def _prehistory(self, h, method, args):
         """See HISTORY above.  Never raises; what it did is appended to LAST_HISTORY."""
@@ -174,7 +207,26 @@ class Mon(object):
                 k = h.randint(1, n)
                 d2 = dict((key, (list(col)[:k] if key == 'time' else _shuffled(h, col)[:k])) for key, col in d.items())
                 what = 'evaluate() on %d other samples first' % k
-                s.evaluate(d2)
+                real = tuple(self.sd.get('period') or (1, 's', 0.1))
+                half = None
+                if h.random() < 0.4 and isinstance(real[0], int):
+                    # ... under another sampling period (half of the real one, so all bounds stay multiples), which
+                    # is set back before the workload's evaluation: the last configuration counts
+                    finer = {'s': 'ms', 'ms': 'us', 'us': 'ns'}.get(real[1])
+                    half = (real[0] // 2, real[1]) if real[0] % 2 == 0 else ((real[0] * 500, finer) if finer else None)
+                poison = h.random() < 0.25 and len(d2) > 2
+                if poison:
+                    pk = h.choice(sorted(key for key in d2 if key != 'time'))
+                    d2[pk] = [None] * k
+                    what += ' (a call that fails: %s carries no numbers)' % pk
+                if half is not None:
+                    what += ' under the sampling period %s%s' % half
+                    s.set_sampling_period(half[0], half[1], real[2] if len(real) > 2 else 0.1)
+                try:
+                    s.evaluate(d2)
+                finally:
+                    if half is not None:
+                        s.set_sampling_period(*real)
             elif method == 'evaluate' and args and all(isinstance(a, (list, tuple)) and len(a) == 2 for a in args):
                 a2 = []
                 for name, samples in args:
@@ -183,14 +235,29 @@ class Mon(object):
                     k = h.randint(1, len(samples)) if samples else 0
                     a2.append([name, [[samples[i][0], vals[i]] for i in range(k)]])
                 what = 'evaluate() on other signals first'
+                if h.random() < 0.25 and len(a2) > 1:
+                    j = h.randrange(len(a2))
+                    a2[j] = [a2[j][0], [[x[0], None] for x in a2[j][1]]]
+                    what += ' (a call that fails: %s carries no numbers)' % a2[j][0]
                 s.evaluate(*a2)
             elif method == 'update' and len(args) == 2 and isinstance(args[0], (int, float)):
                 t0, ins = args
                 ins = [tuple(x) for x in ins]
                 k = h.randint(1, 5)
                 what = '%d update() calls with other values, then reset()' % k
+                bad = h.randrange(k) if (h.random() < 0.3 and len(ins) > 1) else None
+                pv = h.randrange(len(ins))
+                if bad is not None:
+                    what = '%d update() calls with other values, the %s of which fails (%s is None), then reset()' % (
+                        k, ['first', 'second', 'third', 'fourth', 'fifth'][bad], ins[pv][0])
                 for i in range(k):
-                    s.update(t0 + i, [(nm, val + h.choice([-1.0, 0.0, 1.0, 2.5])) for nm, val in ins])
+                    try:
+                        s.update(t0 + i, [(nm, (None if (i == bad and j == pv) else val + h.choice([-1.0, 0.0, 1.0, 2.5])))
+                                          for j, (nm, val) in enumerate(ins)])
+                    except Exception:
+                        if i != bad:
+                            raise
+                        REC.counts['history:failing-update'] += 1
                 s.reset()
             elif method == 'update' and args and all(isinstance(a, (list, tuple)) and len(a) == 2 for a in args):
                 a2 = []
